@@ -108,4 +108,18 @@ PROPS = {
         "text": "After every call: the update notifications observed are exactly the document-level (and, for branchable collections, collection-level) commits that became durable during the call, none for failed or discarded work, none before an explicit commit; each carries a cid that is the hash of its bytes and a block readable from the store; all bus subscribers see the same sequence; the filtered GraphQL subscription delivers one non-empty result per committed matching change.",
         "note": "Whether a delete 'matches' a subscription filter is left open (0 or 1 result accepted); results with an empty dataset are not counted as results. Expected subscription matches are computed with a read at the commit (validated separately by C03).",
     },
+    "C14": {
+        "engine": "E3", "level": "exploration", "design_ref": "DESIGN.md §5 C14",
+        "technique": "deterministic simulation: clean restarts and crashes at storage-commit boundaries inside operations (only the committed-batch log survives), compared in lock-step with a never-restarted twin",
+        "rule": ("histories of 6-30 operations (20 kinds: document mutations, filtered mutations, index create/drop, schema add/patch, version switch, explicit transactions) on a node X and a twin Y; "
+                 "up to 5 restarts of X per history, biased to follow schema / index / sequence-consuming operations: clean close+reopen, or crash right after the c-th commit of the next operation. "
+                 "in-memory log replay or an on-disk badger directory. distinct = distinct (operation kind before the restart, restart kind) pairs"),
+        "real_vs_stub": "real: DB.initialize / loadSchema / sequences / index and description caches, badger (in-memory via log replay, or on disk); stub: crash = store fenced at a commit boundary, context cancelled, node abandoned without Close; not run: net.Peer reload (replicators, P2P collections) and document ACP state — planned with E2",
+        "assumptions": ASSUME_COMMON + ["durable = batches whose Commit returned nil, in commit order"],
+        "probes": ["clean_restarts", "crashes", "crash_after_commit", "crash_before_commit", "ops_compared_after_restart"],
+        "quick": {"count": 12, "budget_s": 70, "workers": 16},
+        "thorough": {"count": 100000, "budget_s": 1500, "workers": 16},
+        "text": "After every restart and after every later operation the full logical dump (documents incl. deleted, commits, heads, index-backed reads, collection/index/schema descriptions with their identifiers, introspected types) of X must equal Y's, and every later operation must return the same result on both.",
+        "note": "Peer configuration (replicators, P2P collections) and ACP state are not yet part of the compared history. An operation whose several commits are cut in the middle by the crash ends the run without verdict (that is C05's question).",
+    },
 }
